@@ -425,6 +425,7 @@ func srcFaults(run *vk.Run, id *age.X25519Identity, seed int64) {
 			encryptTo(&fb, []*age.X25519Identity{id}, encCase{n, armored, 1}, pt)
 			file := fb.Bytes()
 			var offs []int
+			var exact map[int]bool
 			if len(file) <= 1200 {
 				for o := 0; o <= len(file); o++ {
 					offs = append(offs, o)
@@ -432,6 +433,7 @@ func srcFaults(run *vk.Run, id *age.X25519Identity, seed int64) {
 			} else {
 				hdr := 200
 				seen := map[int]bool{}
+				exact = map[int]bool{}
 				add := func(o int) {
 					if o >= 0 && o <= len(file) && !seen[o] {
 						seen[o] = true
@@ -453,6 +455,24 @@ func srcFaults(run *vk.Run, id *age.X25519Identity, seed int64) {
 				for d := 0; d < 120; d++ {
 					add(len(file) - d)
 				}
+				// the exact chunk boundaries of the payload (where a read that delivers nothing consumes nothing)
+				bin := file
+				if armored {
+					bin, _ = io.ReadAll(armor.NewReader(bytes.NewReader(file)))
+				}
+				if hp := bytes.Index(bin, []byte("\n--- ")); hp >= 0 {
+					start := hp + 1 + 4 + 43 + 1 + 16
+					for b := start; b <= len(bin); b += strm.EncChunk {
+						for d := -1; d <= 1; d++ {
+							o := b + d
+							if armored {
+								o = 35 + (o/48)*65 + (o%48)*4/3
+							}
+							add(o)
+							exact[o] = true
+						}
+					}
+				}
 				for i := 0; i < run.Pick(30, 300); i++ {
 					add(rng.Intn(len(file)))
 				}
@@ -470,6 +490,12 @@ func srcFaults(run *vk.Run, id *age.X25519Identity, seed int64) {
 				plans = append(plans, plan{o, false, e, false, "readall"}, plan{o, true, e, false, []string{"copy", "buf4096", "buf1"}[i%3]})
 				if i%2 == 0 {
 					plans = append(plans, plan{o, false, e, true, "copyplain"})
+				}
+				if exact[o] {
+					// at a chunk boundary the outcome must not depend on how much room the caller's buffer has left
+					for _, pol := range []string{"readall", "buf100000", "buf1048576", "readfrom", "buf65552", "win70000", "bufio1m", "sniffcopy"} {
+						plans = append(plans, plan{o, true, e, false, pol}, plan{o, false, e, false, pol})
+					}
 				}
 			}
 			total += len(plans)
